@@ -190,6 +190,12 @@ def _succeeded_states(A: Analysis) -> Optional[Set[str]]:
                 for el in x.comparators[0].elts:
                     states.add(norm(el).replace("OperationState.", ""))
                 return True
+            if isinstance(x.ops[0], ast.In) and isinstance(x.comparators[0], ast.Name):
+                els = A.const_elements(m.module, x.comparators[0].id)
+                if els is not None:
+                    for el in els:
+                        states.add(el.replace("OperationState.", ""))
+                    return True
         return False
     if isinstance(e, ast.BoolOp) and isinstance(e.op, ast.Or):
         if not all(term(v) for v in e.values):
@@ -751,7 +757,16 @@ def rule_terminate(A: Analysis, rep, rule: str):
             ok_h = False
         for dd in d:
             atoms = {a for c in dd for a, _ in c}
-            if not atoms <= {"eq(errno.ESRCH,ex.errno)", "eq(errno.ECHILD,ex.errno)"}:
+            for a in atoms:
+                if a in ("eq(errno.ESRCH,ex.errno)", "eq(errno.ECHILD,ex.errno)"):
+                    continue
+                if a.startswith("in(ex.errno,") and a.endswith(")"):
+                    nm = a[len("in(ex.errno,"):-1]
+                    els = A.const_elements(tp.module, nm)
+                    if els is None and nm.startswith("(") :
+                        els = [x.strip() for x in nm.strip("()").split(",") if x.strip()]
+                    if els is not None and set(els) <= {"errno.ESRCH", "errno.ECHILD"} and els:
+                        continue
                 ok_h = False
     for n in walk_local(tp.node):
         if isinstance(n, ast.With):
@@ -891,13 +906,28 @@ def rule_ex14(A: Analysis, rep, F: ExecFacts):
         rep.bad("EX14", "slot passed", lc, "start_execution is not passed a slot variable")
         return
     slot = slot_arg.id
-    v = A.single_def_value(fi, slot)
-    ok_acq = False
-    det = "slot is `%s`" % (norm(v) if v is not None else "?")
-    if isinstance(v, ast.IfExp):
-        d = A.dnf(v.test, True, fi)
-        want = [frozenset({("t(self._running_parallel)", True), ("lt(1,self._slots)", True)})]
-        ok_acq = d == want and norm(v.body) == "self._available_slots[-1]" and norm(v.orelse) == "None"
+    cv = A.cvalues(fi, slot, gp)
+    want = sorted([(sorted([("t(self._running_parallel)", True), ("lt(1,self._slots)", True)]), "self._available_slots[-1]")])
+    got_top = sorted((sorted(c), v_) for c, v_ in cv if v_ != "None")
+    none_vals = [c for c, v_ in cv if v_ == "None"]
+    # the None alternative must be the complement of the guard: !parallel | !(slots>1)
+    comp_ok = sorted(map(sorted, none_vals)) in (sorted(map(sorted, [frozenset({("t(self._running_parallel)", False)}), frozenset({("lt(1,self._slots)", False)})])),
+                                                  sorted(map(sorted, [frozenset({("t(self._running_parallel)", False)}), frozenset({("t(self._running_parallel)", True), ("lt(1,self._slots)", False)})])))
+    # the dequeue-iteration prefix conditions (launch guard etc.) are irrelevant here: strip atoms that do not mention the mode/slots
+    def strip(cs):
+        return sorted((sorted(a for a in c if a[0] in ("t(self._running_parallel)", "lt(1,self._slots)")), v_) for c, v_ in cs)
+    cv_s = [(frozenset(a for a in c if a[0] in ("t(self._running_parallel)", "lt(1,self._slots)")), v_) for c, v_ in cv]
+    from ..analysis import _simplify
+    tops = {}
+    for c, v_ in cv_s:
+        if v_ != "None":
+            tops.setdefault(v_, []).append(c)
+    got_top = sorted((sorted(c), v_) for v_, cs in tops.items() for c in _simplify(cs))
+    none_s = _simplify([c for c, v_ in cv_s if v_ == "None"])
+    comp_ok = sorted(map(sorted, none_s)) == sorted(map(sorted, [frozenset({("t(self._running_parallel)", False)}), frozenset({("lt(1,self._slots)", False)})]))
+    ok_acq = got_top == want and comp_ok
+    det = "slot takes the values %s — the slot handed out must be the pool's top element (the one `_available_slots.pop()` removes) exactly when running parallel with more than one slot, else None" % [
+        ("%s if %s" % (v_, fmt_conj(c))) for c, v_ in cv_s]
     rep.check(ok_acq, "EX14", "acquire: top of pool iff parallel ∧ slots>1", lc,
               "slot = top of the free pool exactly when running parallel with more than one slot, else None", det)
     # handle.slot = slot, add_op, pop iff slot is not None — all on the success path, in this order
